@@ -149,7 +149,7 @@ func c05Small(r *rand.Rand) *lalr.Grammar {
 func init() {
 	fw.Register(&fw.Check{
 		ID: "C05",
-		Rule: "each case: a batch of grammars - random small lalr.Grammar values (2-8 terminals, up to 8 nonterminals, precedence in half, lookahead nonterminals in a quarter, several inputs, useless nonterminals in a tenth), operator grammars with nonassoc groups, and LARGE statement/expression skeletons (10-170 binary operators in 2-13 precedence groups, prefix/postfix operators, stratified layers, blocks, calls, lists, optional runtime lookahead; 70-400 states) - each compiled by lalr.Compile with Optimize, once without and once with DefaultReduce, MinimizeDFA in a third. " +
+		Rule: "each case: a batch of grammars - random small lalr.Grammar values (2-8 terminals, up to 8 nonterminals, precedence in half, lookahead nonterminals in a quarter, several inputs, useless nonterminals in a tenth), operator grammars with nonassoc groups, and LARGE statement/expression skeletons (10-170 binary operators in 2-13 precedence groups, prefix/postfix operators, stratified layers, blocks, calls, lists, optional runtime lookahead; 70-400 states), and keyword-table grammars with ~1000 rules (~2200 states) containing pairs of action rows over the same terminals whose rule numbers differ by (+1, -961) - the rows whose packer hashes collide - each compiled by lalr.Compile with Optimize, once without and once with DefaultReduce, MinimizeDFA in a third. " +
 			"For every compile the displacement encoding (Action/DefAct/Base/Table/Check, Goto/DefGoto) is decoded exactly as parseFunc/gotoState of the generated parser do and compared with the default encoding for EVERY state x terminal (shift target, rule, error) and every existing goto, including the token path of gotoState; with DefaultReduce the only tolerated difference is: an error that is not an explicit Lalr entry may become one of the most frequent reductions of that state's row. Both encodings are also run as parsers on sentences, mutated sentences and random token strings from every input. " +
 			"A compile is non-trivial when it has >= 6 states; distinctness by grammar text and option vector",
 		Assumptions: []string{
@@ -166,9 +166,9 @@ func init() {
 		CPUBudget: 900,
 		Run: func(c *fw.Ctx) {
 			lalrTune()
-			nSmall, nExpr, nLarge := 40, 6, 2
+			nSmall, nExpr, nLarge, nHash := 40, 6, 2, 1
 			if c.Tier == "thorough" {
-				nSmall, nExpr, nLarge = 60, 8, 3
+				nSmall, nExpr, nLarge, nHash = 60, 8, 3, 2
 			}
 			for i := 0; i < nSmall; i++ {
 				r := c.SubRand(i)
@@ -186,6 +186,12 @@ func init() {
 				r := c.SubRand(2000 + i)
 				c05One(c, reflalr.LargeGrammar(r), r, "large", 30)
 			}
+			for i := 0; i < nHash; i++ {
+				// ~1000 rules; pairs of action rows over the same columns whose values differ by
+				// (+1, -961), i.e. rows with equal polynomial row hashes in the packer
+				r := c.SubRand(3000 + i)
+				c05One(c, reflalr.HashCollisionGrammar(r), r, "hash_collision_family", 30)
+			}
 		},
 		MinNontrivial: func(tier string) int {
 			if tier == "thorough" {
@@ -195,6 +201,6 @@ func init() {
 		},
 		RequiredCounters: []string{"hook_calls_optimized", "compiles_large", "compiles_large_default_reduce", "compiles_small_default_reduce", "cells_nonassoc_error", "cells_error_turned_into_default_reduction",
 			"lookups_hitting_foreign_slot", "symbols_with_binary_search_goto", "lines_sharing_a_base", "tables_needing_16_bits", "compiles_with_more_than_127_states", "compiles_with_runtime_lookahead_rules",
-			"inputs_accepted", "inputs_rejected", "gotos_compared", "terminal_gotostate_lookups"},
+			"inputs_accepted", "inputs_rejected", "gotos_compared", "terminal_gotostate_lookups", "compiles_hash_collision_family"},
 	})
 }
